@@ -1,6 +1,7 @@
 import GqlProofs.PlanCache
 import GqlProofs.NormalizeLoc
 import GqlProofs.NormalizeWF
+import GqlProofs.NormalizeKeep
 import GqlProofs.NulFree
 import Props.C08Bytes
 /-! # C06 — Prepared plans and the plan cache are semantically transparent
@@ -726,10 +727,10 @@ theorem normalize_args_transparent (s : Schema) (hcc : customLti s)
 /-- **synth_names_fresh.** The synthetic variables of an operation never clash with a variable the operation defines
 nor with any variable name occurring anywhere in the document (`docNames = docVarNames doc`: definitions and uses,
 all operations and fragments — so an undefined `$__pcvN` cannot be captured), and are pairwise distinct. -/
-theorem synth_names_fresh (s : Schema) (root : String) (vars : List VarDef) (docNames : List String) (sel : SelectionSet) :
-    (∀ e ∈ (normSet s root sel (initState vars docNames)).2.entries,
+theorem synth_names_fresh (s : Schema) (keep : List String) (root : String) (vars : List VarDef) (docNames : List String) (sel : SelectionSet) :
+    (∀ e ∈ (normSet s keep root sel (initState vars docNames)).2.entries,
         e.name ∉ userVarNames vars ∧ e.name ∉ docNames) ∧
-    ((normSet s root sel (initState vars docNames)).2.entries.map (·.name)).Nodup := by
+    ((normSet s keep root sel (initState vars docNames)).2.entries.map (·.name)).Nodup := by
   have h0 : NamesOK (initState vars docNames) := by
     unfold NamesOK
     exact ⟨by intro e he; simp [initState] at he, by simp [initState]⟩
@@ -746,7 +747,7 @@ fragments spreads, inline fragments, locations — are unchanged; only argument 
 exactly those). Fragment definitions are not touched at all (`normalizeDocument` replaces one definition). -/
 theorem normalize_preserves_shape (s : Schema) (root : String) (docNames : List String) (op : OpType) (name : Option Name)
     (vars : List VarDef) (dirs : List Directive) (sel : SelectionSet) (loc : Loc) :
-    ∃ sel' newDefs, (normalizeOperation s root docNames (.operation op name vars dirs sel loc)).1 =
+    ∃ sel' newDefs, (normalizeOperation s keep root docNames (.operation op name vars dirs sel loc)).1 =
         .operation op name (vars ++ newDefs) dirs sel' loc ∧ eraseSet sel' = eraseSet sel :=
   ⟨_, _, rfl, normSet_shape s sel root (initState vars docNames)⟩
 
@@ -1128,6 +1129,49 @@ theorem normalising_get_transparent_repaired {S : Type} [DecidableEq S] (f : Fro
     doc docN synth inputs w fuel hparse hnorm hcc (hsch s)
     (wf_document_lex doc (GqlModel.C08.parse_ok_WF q ⟨doc, false⟩ (hpb q doc hparse) rfl)) hu
 
+/-! ## 10. What the rewriting leaves alone so that VALIDATION says the same (D-06m, D-06n)
+
+`normalized_transparent` is about execution. Validation runs on the REWRITTEN document; two rules read literals as
+written, and the normaliser must not take them away from those rules. -/
+
+/-- **duplicate_field_literals_stay (D-06m).** An object literal that names a field twice — at any depth, inside lists —
+is never extracted: it stays in the document, where UniqueInputFieldNames reports it (before the repair it became a
+synthetic variable and the request was SERVED with the last value). -/
+theorem duplicate_field_literals_stay (s : Schema) (st : NState) (v : Value) (t : GType) (h : dupFields v = true) :
+    tryExtract s st v t = (v, st) := tryExtract_dup s st v t h
+
+/-- **kept_keys_keep_arguments (D-06n).** The fields of the operation whose RESPONSE KEY also occurs on a field inside a
+fragment definition (`keep = fragKeys doc`) have, after the walk, exactly the argument lists they had before (same
+fields, same order): `keptOf keep` = the (response key, argument list) pairs with key in `keep`. -/
+theorem kept_keys_keep_arguments (s : Schema) (keep : List String) (sel : SelectionSet) (P : String) (st : NState) :
+    keptOf keep (setKeyArgs (normSet s keep P sel st).1) = keptOf keep (setKeyArgs sel) :=
+  normSet_kept s keep sel P st
+
+/-- **same_arguments_with_fragment_fields (D-06n).** OverlappingFieldsCanBeMerged compares, for fields with one response
+key, the argument lists AS WRITTEN (`R` below: any relation on argument lists, e.g. the rule's "same arguments"). Fragment
+definitions are not rewritten (`normalize_original_unmodified` / `fragments_eq`). For every field `(k, fa)` of every fragment
+definition of the document: the operation fields with response key `k` stand in `R` to it after the rewriting iff they
+did before — their argument lists are literally the same. So the rewriting can neither create nor hide an
+operation-vs-fragment argument conflict. (Two fields of the operation itself are both rewritten, equal literals of one
+type by the same synthetic variable: `dedupe_key_sound`.) -/
+theorem same_arguments_with_fragment_fields (s : Schema) (doc : Document) (root : String) (sel : SelectionSet) (st : NState)
+    (name : Name) (tc : TypeRef) (dirs : List Directive) (fsel : SelectionSet) (loc : Loc)
+    (hd : Definition.fragment name tc dirs fsel loc ∈ doc.defs) (k : String) (fa : List Argument)
+    (hf : (k, fa) ∈ setKeyArgs fsel) (R : List Argument → List Argument → Prop) :
+    (∀ p ∈ setKeyArgs (normSet s (fragKeys doc) root sel st).1, p.1 = k → R p.2 fa) ↔
+      (∀ p ∈ setKeyArgs sel, p.1 = k → R p.2 fa) := by
+  have hk : (fragKeys doc).contains k = true := fragKeys_mem doc name tc dirs fsel loc hd (k, fa) hf
+  have hkept := normSet_kept s (fragKeys doc) sel root st
+  have hmem : ∀ (l : List (String × List Argument)) (p : String × List Argument), p.1 = k →
+      (p ∈ l ↔ p ∈ keptOf (fragKeys doc) l) := by
+    intro l p hp
+    simp only [keptOf, List.mem_filter, hp, hk, and_true]
+  constructor
+  · intro h p hp hpk
+    exact h p ((hmem _ p hpk).mpr (hkept ▸ (hmem _ p hpk).mp hp)) hpk
+  · intro h p hp hpk
+    exact h p ((hmem _ p hpk).mpr (hkept ▸ (hmem _ p hpk).mp hp)) hpk
+
 /-! ## non-vacuity -/
 section Examples
 def exEchoArgs : List ArgDef := [⟨"i", .named "Int", none, ""⟩, ⟨"e", .named "Color", none, ""⟩,
@@ -1143,12 +1187,21 @@ def exArgs : List Argument := [⟨⟨"i", L0⟩, .int "3" L0, L0⟩, ⟨⟨"e", 
 def exSel : SelectionSet := .mk [.field none ⟨"echo", L0⟩ exArgs [] none L0] L0
 
 -- four literals, three synthetic variables (`i: 3` and `l: 3` have different types, hence different variables)
-example : (normSet exS "Query" exSel (initState [] [])).2.synth.map (·.1) = ["__pcv0", "__pcv1", "__pcv2", "__pcv3"] := by
+example : (normSet exS [] "Query" exSel (initState [] [])).2.synth.map (·.1) = ["__pcv0", "__pcv1", "__pcv2", "__pcv3"] := by
   decide +kernel
 -- the enum literal travels by NAME, the input object as a map without the defaulted field
-example : ((JVal.obj (normSet exS "Query" exSel (initState [] [])).2.synth) ==
+example : ((JVal.obj (normSet exS [] "Query" exSel (initState [] [])).2.synth) ==
     .obj [("__pcv0", .int 3), ("__pcv1", .str "GREEN"), ("__pcv2", .obj [("y", .int 1)]), ("__pcv3", .int 3)]) = true := by
   decide +kernel
+-- D-06n repaired: with `echo` among the response keys of the fragment definitions, the field keeps its literals
+example : (normSet exS ["echo"] "Query" exSel (initState [] [])).2.entries.length = 0 ∧
+    (normSet exS ["other"] "Query" exSel (initState [] [])).2.entries.length = 4 := by decide +kernel
+-- D-06m repaired: `{y: 1, y: 2}` (also inside a list) is not extracted
+example : dupFields (.obj [.mk ⟨"y", L0⟩ (.int "1" L0) L0, .mk ⟨"y", L0⟩ (.int "2" L0) L0] L0) = true ∧
+    dupFields (.list [.obj [.mk ⟨"y", L0⟩ (.int "1" L0) L0, .mk ⟨"y", L0⟩ (.int "2" L0) L0] L0] L0) = true ∧
+    dupFields (.obj [.mk ⟨"x", L0⟩ (.int "1" L0) L0, .mk ⟨"y", L0⟩ (.int "2" L0) L0] L0) = false ∧
+    (tryExtract exS (initState [] []) (.obj [.mk ⟨"y", L0⟩ (.int "1" L0) L0, .mk ⟨"y", L0⟩ (.int "2" L0) L0] L0)
+      (.named "Pt")).2.entries.length = 0 := by decide +kernel
 -- a user variable named __pcv0 is skipped
 example : (nextName ["__pcv0", "x", "__pcv1"] 0).1 = "__pcv2" := by decide +kernel
 -- D-06h repaired: the invalid `["5"]` for [Int] is NOT extracted (although its client form would be accepted)
